@@ -216,7 +216,7 @@ fn gen_emit_op(rng: &mut Rng, i: usize, stats: &mut BTreeMap<String, u64>) -> St
     op
 }
 
-/// regression witnesses corpus/C08/oracle-*.case (relative to the harness binary: <verif>/harness/target/<profile>/h_cksum)
+/// regression witnesses corpus/C08/oracle-*.case and frag-*.case (relative to the harness binary: <verif>/harness/target/<profile>/h_cksum)
 fn corpus_cases(kind: &str) -> Vec<Case> {
     let root = std::env::var("VERIF_ROOT").ok().map(std::path::PathBuf::from).or_else(|| {
         let exe = std::env::current_exe().ok()?;
@@ -229,7 +229,7 @@ fn corpus_cases(kind: &str) -> Vec<Case> {
             files.sort();
             for f in files {
                 let name = f.file_name().unwrap().to_string_lossy().to_string();
-                if name.starts_with("oracle-") && name.ends_with(".case") {
+                if (name.starts_with("oracle-") || name.starts_with("frag-")) && name.ends_with(".case") {
                     if let Ok(fh) = std::fs::File::open(&f) {
                         v.extend(read_cases(&mut std::io::BufReader::new(fh)).into_iter().filter(|c| c.get("kind") == Some(kind)));
                     }
@@ -1032,6 +1032,8 @@ struct FragStats {
     reassembled: u64,
     incomplete: u64,
     nothing: u64,
+    /// instances run with the transmit checksums offloaded (caps rx / none), compared with caps both
+    offload_runs: u64,
 }
 
 /// run one fragmented-egress instance; returns failures (class, detail)
@@ -1099,6 +1101,23 @@ fn frag_check(kind: &str, med: Med, mode: &str, ip_mtu: usize, payload: &[u8], s
             pkts.push(ip.to_vec());
         }
     }
+    let tx_on = mode == "both" || mode == "tx";
+    if !tx_on {
+        // checksum generation offloaded to the device (caps Rx / None): the stack must hand the device the same
+        // packets, it only may leave the checksum fields unfilled.  Compare with the same send under caps Both.
+        st.offload_runs += 1;
+        let mut s2 = FragStats { instances: 0, fragments: 0, three_or_more: 0, reassembled: 0, incomplete: 0, nothing: 0, offload_runs: 0 };
+        let _ = frag_check(kind, med, "both", ip_mtu, payload, &mut s2);
+        if s2.fragments != pkts.len() as u64 {
+            fails.push((
+                "tx-offload-changes-egress".into(),
+                format!(
+                    "{} {:?} ip-mtu {} payload {} bytes: with checksum caps {} (transmit checksums left to the device) the interface emits {} IPv4 packet(s), with caps both it emits {}",
+                    kind, med, ip_mtu, payload.len(), mode, pkts.len(), s2.fragments
+                ),
+            ));
+        }
+    }
     if pkts.is_empty() {
         st.nothing += 1;
         return fails;
@@ -1107,7 +1126,6 @@ fn frag_check(kind: &str, med: Med, mode: &str, ip_mtu: usize, payload: &[u8], s
     if pkts.len() >= 3 {
         st.three_or_more += 1;
     }
-    let tx_on = mode == "both" || mode == "tx";
     if !tx_on {
         return fails;
     }
@@ -1168,7 +1186,7 @@ fn frag_case(id: String, kind: &str, med: Med, mode: &str, mtu: usize, payload: 
 
 fn oracle_frag(seed: u64, n: usize, _tier: &str, out: &mut dyn Write) {
     let mut rng = Rng::new(seed ^ 0xF4A6);
-    let mut st = FragStats { instances: 0, fragments: 0, three_or_more: 0, reassembled: 0, incomplete: 0, nothing: 0 };
+    let mut st = FragStats { instances: 0, fragments: 0, three_or_more: 0, reassembled: 0, incomplete: 0, nothing: 0, offload_runs: 0 };
     let mut fails: Vec<(String, String)> = vec![];
     let mut todo: Vec<Case> = vec![];
     if seed % 1000 == 0 {
@@ -1180,7 +1198,12 @@ fn oracle_frag(seed: u64, n: usize, _tier: &str, out: &mut dyn Write) {
         let kind = FRAG_KINDS[j % FRAG_KINDS.len()];
         let med = if (j / FRAG_KINDS.len()) % 2 == 0 { Med::Ip } else { Med::Eth };
         let mtu = FRAG_MTUS[(j / (2 * FRAG_KINDS.len())) % FRAG_MTUS.len()];
-        let mode = if rng.chance(1, 6) { "tx" } else { "both" };
+        let mode = match rng.below(12) {
+            0 | 1 => "tx",
+            2 => "rx",
+            3 => "none",
+            _ => "both",
+        };
         // IP packet <= 1500 bytes (FRAGMENTATION_BUFFER_SIZE); mostly >= 3 fragments
         let len = match rng.below(8) {
             0 => rng.range(1, mtu as i64) as usize,
@@ -1207,8 +1230,8 @@ fn oracle_frag(seed: u64, n: usize, _tier: &str, out: &mut dyn Write) {
     }
     writeln!(
         out,
-        "STATS {{\"cases\":{},\"fragments_checked\":{},\"instances_with_3_or_more_fragments\":{},\"datagrams_reassembled\":{},\"incomplete\":{},\"nothing_emitted\":{}}}",
-        st.instances, st.fragments, st.three_or_more, st.reassembled, st.incomplete, st.nothing
+        "STATS {{\"cases\":{},\"fragments_checked\":{},\"instances_with_3_or_more_fragments\":{},\"datagrams_reassembled\":{},\"incomplete\":{},\"nothing_emitted\":{},\"tx_offload_runs\":{}}}",
+        st.instances, st.fragments, st.three_or_more, st.reassembled, st.incomplete, st.nothing, st.offload_runs
     )
     .unwrap();
 }
@@ -1224,7 +1247,7 @@ fn replay_frag_case(c: &Case, st: &mut FragStats) -> Vec<(String, String)> {
     }
     let (kind, mode, mtu) = (c.get("scen").unwrap_or("udp").to_string(), c.get("caps").unwrap_or("both").to_string(), c.get_i("mtu", 296) as usize);
     match catch_unwind(AssertUnwindSafe(|| {
-        let mut s2 = FragStats { instances: 0, fragments: 0, three_or_more: 0, reassembled: 0, incomplete: 0, nothing: 0 };
+        let mut s2 = FragStats { instances: 0, fragments: 0, three_or_more: 0, reassembled: 0, incomplete: 0, nothing: 0, offload_runs: 0 };
         let f = frag_check(&kind, med, &mode, mtu, &payload, &mut s2);
         (f, s2)
     })) {
@@ -1235,6 +1258,7 @@ fn replay_frag_case(c: &Case, st: &mut FragStats) -> Vec<(String, String)> {
             st.reassembled += s2.reassembled;
             st.incomplete += s2.incomplete;
             st.nothing += s2.nothing;
+            st.offload_runs += s2.offload_runs;
             f
         }
         Err(_) => vec![("frag-egress-panics".into(), format!("case {}", c.id))],
@@ -1259,7 +1283,7 @@ fn replay_cases(cases: &[Case], out: &mut dyn Write) {
                 }
             }
             Some("frag") => {
-                let mut st = FragStats { instances: 0, fragments: 0, three_or_more: 0, reassembled: 0, incomplete: 0, nothing: 0 };
+                let mut st = FragStats { instances: 0, fragments: 0, three_or_more: 0, reassembled: 0, incomplete: 0, nothing: 0, offload_runs: 0 };
                 for (class, detail) in replay_frag_case(c, &mut st) {
                     writeln!(out, "FAIL {} :: case {}: {}", class, c.id, detail).unwrap();
                 }
